@@ -17,8 +17,11 @@ MUTANTS = [
     M("lzma2-max-length-dropped", S, ").decompress(data, max_length)", ").decompress(data)", "C12-DECOMP"),
     M("xml-etree-parse", "sharepoint2text/parsing/extractors/util/zip_utils.py", "from defusedxml import ElementTree as ET", "from xml.etree import ElementTree as ET", "C12-XML"),
     M("ods-empty-string-not-none", O + "ods_extractor.py", "    if text:\n        return text, text\n    return None, \"\"", "    if text or value_type == \"string\":\n        return text, text\n    return None, \"\"", "C12-EMPTY"),
+    M("rtf-field-gaps-cross-braces", "sharepoint2text/parsing/extractors/ms_legacy/rtf_extractor.py", "    r\"\\\\field\\s*\\{[^{}]*\\\\fldinst\\s*\\{([^}]*)\\}\"\n    r\"[^{}]*\\{[^{}]*\\\\fldrslt\\s*\\{([^}]*)\\}\",", "    r\"\\\\field\\s*\\{[^}]*\\\\fldinst\\s*\\{([^}]*)\\}\"\n    r\"[^}]*\\{[^}]*\\\\fldrslt\\s*\\{([^}]*)\\}\",", "C12-REGEX"),
+    M("rtf-footnote-blank-overlap", "sharepoint2text/parsing/extractors/ms_legacy/rtf_extractor.py", "    r\"\\{\\\\footnote([^{}]*(?:", "    r\"\\{\\\\footnote\\s*([^{}]*(?:", "C12-REGEX"),
 ]
 TWINS = [
+    T("rtf-footnote-one-blank", "sharepoint2text/parsing/extractors/ms_legacy/rtf_extractor.py", "    r\"\\{\\\\footnote([^{}]*(?:", "    r\"\\{\\\\footnote\\b([^{}]*(?:"),
     T("limit-compare-flipped", I, "        if file_size > max_file_size:", "        if max_file_size < file_size:"),
     T("count-check-flipped", S, "        if num_files > self._remaining():", "        if self._remaining() < num_files:"),
     T("max-length-keyword", S, ").decompress(data, max_length)", ").decompress(data, max_length=max_length)"),
